@@ -12,7 +12,13 @@ Two layers, both complete enumerations of explicitly bounded spaces (DESIGN.md s
     across a tile boundary, growth to column 999 on <= 2-row tables) x a value alphabet, written
     with the real Table.write, saved with Document.save, reopened with Document(path). Values are
     packed many per document by a rotation, so that over the |alphabet| documents of one
-    (shape, scenario) every position receives every value. A second family writes every ordered
+    (shape, scenario) every position receives every value; every shape is also saved at exactly
+    the size it was created with. An "exact" family saves tables that have exactly 256*k rows (or
+    columns) at save time - created so, grown to it by a write to the last row (by one, or from a
+    4-row table across the tile boundaries), kept at / grown to / shrunk to it in a second cycle on
+    the reopened document - with values in the first row, on both sides of every tile boundary and
+    in the last row (a last tile that is exactly full is a boundary case of the tile loop of
+    recalculate_table_data). A further family writes every ordered
     pair of values into one table (shared strings, overwrite with a different type, second
     save cycle on the reopened document).
 
